@@ -273,6 +273,35 @@ fn main() {
                     None => f.to_string(),
                 };
                 let _ = ret;
+                // R17: module-level `const`s of the same file that the function names are extracted with it
+                let mut text = text;
+                struct Caps(Vec<String>);
+                impl<'ast> Visit<'ast> for Caps {
+                    fn visit_path(&mut self, p: &'ast syn::Path) {
+                        if let Some(i) = p.get_ident() {
+                            let s = i.to_string();
+                            if s.len() > 1 && s.chars().all(|c| c.is_ascii_uppercase() || c == '_' || c.is_ascii_digit()) {
+                                self.0.push(s);
+                            }
+                        }
+                        syn::visit::visit_path(self, p);
+                    }
+                }
+                let mut caps = Caps(vec![]);
+                if let Some((_, blk, _, _, _)) = find_fn(&file, item) {
+                    caps.visit_block(&blk);
+                }
+                for it in &file.items {
+                    if let Item::Const(c) = it {
+                        if caps.0.contains(&c.ident.to_string()) {
+                            let mut c = c.clone();
+                            c.attrs.clear();
+                            c.vis = Visibility::Inherited;
+                            text = format!("{} {}", c.to_token_stream(), text);
+                            fired.push(format!("R17-const-{}", c.ident));
+                        }
+                    }
+                }
                 (rustfmt(&text), span)
             }
             "closure" => {
